@@ -176,7 +176,7 @@ package dialer
 //@ func (*Dialer).snapshotLatencyForPolicy
 //@   anchorsonly
 //@   dyncalls noeffect
-//@   modifies *
+//@   trustframe
 //@   assumed-ensures 0 <= result0 && result0 < 1800000000000
 //@   at call LastLatency#1 assert policy == consts.DialerSelectionPolicy_MinLastLatency
 //@   at call AvgLatency#1 assert policy == consts.DialerSelectionPolicy_MinAverage10Latencies
